@@ -194,6 +194,9 @@ func (f fault) String() string {
 	if f.kind == "wfailexc" {
 		return fmt.Sprintf("wfail%d+exc@%d", f.arg, f.k)
 	}
+	if f.kind == "extradata" {
+		return fmt.Sprintf("extradata%d@%d", f.arg, f.k)
+	}
 	if f.kind == "exccut" || f.kind == "excsilent" {
 		return fmt.Sprintf("%s%d@%d", f.kind, f.arg, f.k)
 	}
@@ -256,6 +259,13 @@ func body04(s scn, f fault, probe bool) Body {
 			eb := append([]byte{}, c.W.Exception(excReadonly)[:5]...)
 			eb = append(eb, 0x80, 0x80, 0x80, 0x80, 0x80, 0x80, 0x80, 0x80, 0x80, 0x01)
 			inj = &Inject{G: f.k, Stop: true, Bytes: append(eb, c.W.Exception(excReadonly)[6:]...)}
+		case "extradata":
+			// the server repeats its (zero-row) schema block arg times and carries on
+			var eb []byte
+			for i := 0; i < f.arg; i++ {
+				eb = append(eb, c.W.Data(0, Col("v", "UInt64"))...)
+			}
+			inj = &Inject{G: f.k, Bytes: eb}
 		case "unknown":
 			inj = &Inject{G: f.k, Stop: true, Bytes: []byte{99}}
 		case "unexpected":
@@ -429,6 +439,14 @@ func C04(c *vk.Ctx) {
 			}
 		}
 		jobs = append(jobs, job{s, fault{kind: "none"}, gb, false})
+		// a server that sends more (header) blocks than the exchange calls for
+		if strings.HasPrefix(s.name, "insert") {
+			for g := 0; g <= term; g++ {
+				for _, n := range []int{1, 2, 3} {
+					jobs = append(jobs, job{s, fault{kind: "extradata", k: g, arg: n}, bb, false})
+				}
+			}
+		}
 		// an exception that does not arrive whole: cut or silence after every byte of it,
 		// or a body that cannot be decoded
 		{
